@@ -52,6 +52,7 @@ type Contract struct {
 	Safety   map[string]bool
 	Requires []*Clause
 	Ensures  []*Clause
+	Stable   []*Clause // "stable P": two-state clause over the receiver only that every call establishes AND that is closed under composition (checked); the container/heap models assume it for the unknown sequence of Swap calls the library makes
 	Defines  []*Clause // definitional postconditions: introduce an uninterpreted predicate as "this deterministic function accepts"; assumed at call sites, not checked
 	ClosureAccepts map[int]*Clause // "closure N accepts P": whenever the N-th function literal returns a nil error, P holds of its arguments
 	PreCalls []*PreCall // call-site obligations: every call of a matching callee is made only when the condition holds (dominance)
@@ -109,7 +110,7 @@ type Lemma struct {
 var clauseKeywords = map[string]bool{
 	"func": true, "props": true, "safety": true, "requires": true, "ensures": true,
 	"modifies": true, "loop": true, "trusted": true, "pure": true, "opaque": true, "ghost": true,
-	"global": true, "lemma": true, "assumes": true, "import": true, "note": true, "cases": true, "end": true, "trustframe": true, "ensures-local": true, "defines": true, "precall": true, "closure": true, "iface": true, "init": true, "nowrite": true, "assume-pre": true,
+	"global": true, "lemma": true, "assumes": true, "import": true, "note": true, "cases": true, "end": true, "trustframe": true, "ensures-local": true, "defines": true, "precall": true, "closure": true, "iface": true, "init": true, "nowrite": true, "assume-pre": true, "stable": true,
 }
 
 var funcKeyRe = regexp.MustCompile(`^(?:\(\s*\*?\s*(\w+)\s*\)\s*\.\s*(\w+)|(\w+)\s*\.\s*(\w+)|(\w+))`)
@@ -269,6 +270,10 @@ func parseSpecFile(path, relDir string) (*PkgSpec, error) {
 				cur.Requires = append(cur.Requires, mk("requires", it.text, it.line, len(cur.Requires)))
 			case "ensures":
 				cur.Ensures = append(cur.Ensures, mk("ensures", it.text, it.line, len(cur.Ensures)))
+			case "stable":
+				c := mk("ensures", it.text, it.line, len(cur.Stable))
+				c.Label = fmt.Sprintf("stable%d", len(cur.Stable))
+				cur.Stable = append(cur.Stable, c)
 			case "defines":
 				c := mk("ensures", it.text, it.line, len(cur.Defines))
 				c.Label = fmt.Sprintf("defines%d", len(cur.Defines))
